@@ -213,6 +213,9 @@ class KernelS(KernelX):
                     alts = d
             res_all = []
             any_live = False
+            other = c.ff if want else c.tf
+            if facts is None and other is not None and other != [] and all(prove.entails_ge(st, l) for l in other):
+                alts = []          # the opposite outcome is entailed: this branch is dead
             for facts in alts:
                 if facts is not None and not prove.feasible(st, facts):
                     continue
@@ -350,6 +353,7 @@ class KernelS(KernelX):
                 head.env[s.target.id] = Int(v)
                 if isinstance(lo, Int) and isinstance(hi, Int) and step is None:
                     head.loopvars[next(iter(v.t))] = (lo.lin, hi.lin)
+                    self.exact_syms.add(next(iter(v.t)))
                 for name, c0 in counters.items():
                     cs = head.env[name].lin
                     head.facts.add_ge(cs - c0)
